@@ -117,7 +117,11 @@ def make_session(rng, res, tier):
                                    % (key[0], m.k, observed, m.toggle, retry, self.ops_log[-12:]))
 
         def sig_toggle_violation(self, n, m, observed):
-            if getattr(m, "cleared_at_toggle1", False) and observed == 1 and m.toggle == 0:
+            if getattr(m, "spurious_clear", False) and observed == 0 and m.toggle == 1:
+                self.res.violation("clear_halt_applied_by_unrelated_ack",
+                                   "signal endpoint %d reset to DATA0 although no clear-halt naming it completed: a CLEAR_FEATURE request "
+                                   "was unfinished when the host ACKed another transaction; ops=%s" % (n, self.ops_log[-12:]))
+            elif getattr(m, "cleared_at_toggle1", False) and observed == 1 and m.toggle == 0:
                 self.res.violation("signal_endpoint_ignores_clear_halt",
                                    "signal endpoint %d still sends DATA1 after a completed CLEAR_FEATURE(ENDPOINT_HALT) naming it; ops=%s"
                                    % (n, self.ops_log[-12:]))
